@@ -140,7 +140,10 @@ Step0(st, e) ==
         IF e.res = "ok" THEN
            LET s1 == [st EXCEPT !.asked = IF Get(st.closeIn, E, "") = "error" THEN @ \cup {E} ELSE @,
                         !.observed = IF Get(st.closeIn, E, "") \in {"close", "error"} THEN @ \cup {E} ELSE @] IN
-           IF ~Closing(st, E) THEN Flag(s1, "C03.waitclose-returned-without-close") ELSE s1
+           IF ~Closing(st, E) THEN Flag(s1, "C03.waitclose-returned-without-close")
+           ELSE IF st.cutSide # {} /\ Get(st.closeIn, E, "") = "" /\ E \notin st.lclosing
+                THEN Flag(s1, "C04.waitclose-returned-normally-after-connection-loss")
+           ELSE s1
         ELSE IF e.res \in {"RemoteError", "RemoteError:boom", "RemoteError:deadlock"} THEN
            LET n == Nat0(st.errSeen, E)
                s1 == [st EXCEPT !.errSeen = Put(@, E, n + 1), !.observed = @ \cup {E}, !.asked = @ \cup {E}] IN
